@@ -8,9 +8,10 @@ CHECKS = {
                      "traces of the real ODE/stationary/non-stationary generators (uniform+grid, 4 boxes, n up to 128 for the count clause) are "
                      "validated event by event against the construction/shape/facet/product clauses of the spec; constructor contracts (Contracts.tla: accepted configurations, normalised nb / border batch) are tried on the real constructors.",
                 note="float membership in the closed box / on a facet is evaluated per stored point by the projection; PRNG keys sampled; TLC and the projection are trusted", ref="3.1 3.2 C08"),
-    "C09": dict(cat="model_checking", tech="TLC model checking of Batching.tla + trace validation (Trace_DataGen.tla) over all 1<=b<=n<=8 per store kind",
+    "C09": dict(cat="model_checking", tech="TLC model checking of Batching.tla + Apalache inductive invariant of CursorInd.tla (unbounded sizes) + trace validation (Trace_DataGen.tla) over all 1<=b<=n<=8 per store kind",
                 text="The epoch/cursor algorithm is model-checked for all n<=6, b<=n, active prefixes and permutations (NoRepeatWhenDivides, CoverBeforeReshuffle, "
-                     "PromptReshuffle); every get_batch of the real generators (7 store kinds, all b<=n<=8, 3 epochs, with/without RAR mask) must be a step of that model.",
+                     "PromptReshuffle); every get_batch of the real generators (7 store kinds, all b<=n<=8, border batch sizes independent of the interior batch size, 3 epochs, with/without RAR mask) must be a step of that model; "
+                     "Apalache discharges, for ALL sizes, the inductive invariant of the cursor/capacity arithmetic (window inside the store, no clamping when b divides the active count).",
                 note="point identity = exact bytes; PRNG sampled in traces, exhausted in the model", ref="3.1 C09"),
     "C14": dict(cat="model_checking", tech="TLC model checking of DataGen.tla + trace validation (Trace_DataGen.tla)",
                 text="Products/pairings are model-checked on three independent stores; each row of every real space-time batch is decoded to (time id, point id) and "
@@ -23,34 +24,39 @@ CHECKS = {
     "C16": dict(cat="model_checking", tech="TLC model checking of Rar.tla / RarStore.tla + trace validation (Trace_Rar.tla) of generators driven directly and through jinns.solve",
                 text="All schedules (start, every), capacities and per-axis sizes up to the bounds are model-checked (steps exactly at start+k*every while there is room, "
                      "active count = nstart + J*sel per axis, never beyond the store); every iteration of the real ODE/stationary/non-stationary generators, driven in solver "
-                     "order and end-to-end through solve (hooks H1/H2), must satisfy the same schedule and count clauses until the store is full.",
+                     "order and end-to-end through solve (hooks H1/H2), must satisfy the same schedule and count clauses until the store is full; chained training calls on the returned generator (Restart action of Rar.tla, "
+                     "witness variant OnRestart=keep) and the repository's own refinement test (traced with the hooks) are validated by the same monitor.",
                 note="step = change of the generator's step counter; active = non-zero probability; PRNG sampled; hooks H2 used only for the end-to-end leg", ref="3.3 C16"),
     "C17": dict(cat="model_checking", tech="TLC model checking of RarStore.tla / Rar.tla + trace validation (Trace_Rar.tla) with hook H1 candidates and independently recomputed residual ranks",
                 text="Store-level model with every reshuffle and every top set; in the traces the points written by each real refinement step must be candidates reported by hook H1 with "
-                     "the highest independently recomputed residual (top pairs for product domains), written only into the inactive window, with every active point surviving every draw, reshuffle and step.",
+                     "the highest independently recomputed residual (top pairs for product domains), written only into the inactive window, with every active point surviving every draw, reshuffle and step; single and system losses (vector and scalar residuals), "
+                     "chained training calls, and the repository's own refinement test (ranks from the residuals reported by the hook) are included.",
                 note="candidates come from the guarded hook H1; crafted residual landscapes; near-ties tolerated; PRNG sampled", ref="3.3 C17"),
     "C07": dict(cat="model_checking", tech="TLC model checking of Solve.tla + replay of TLC-emitted scenarios and driver families into jinns.solve, validated by Trace_Solve.tla (tagged arithmetic)",
                 text="The loop (probe draw, draw, gradient step, validation, RAR, store, guard) is model-checked for all n<=6; scenarios and driver families (epoch wrap, batch sizes dividing or not, "
                      "parameter/observation generators, tracked specs, sgd/adam/chained optimizers, resumed runs) run through the real solve with every history entry decoding to (parameter version, batch ids); "
                      "Trace_Solve recomputes the expected result with the model's own operators and compares every entry, the returned parameters, optimizer state and generator. "
-                     "Extra legs: every generator kind as advanced by solve (hook H2) validated against Batching.tla; the batch-size contract of solve (Contracts.tla).",
+                     "The scenarios are realised as ODE, stationary-PDE and non-stationary-PDE training problems, jitted and sharded (non-jitted) loop. "
+                     "Extra legs: every generator kind as advanced by solve (hook H2) validated against Batching.tla; the repository's own solver tests traced with hook H2 and validated the same way; the batch-size contract of solve (Contracts.tla).",
                 note="tagged arithmetic under x64 (exact integers); for sgd/adam/chain only loop structure is compared; n_iter=0 with tracking/validation/aux generators is degenerate (cannot be traced) and not claimed", ref="3.4 C07"),
     "C18": dict(cat="fault_enumeration", tech="TLC enumeration of the fault space on Solve.tla + replay into jinns.solve with real NaN injectors, validated by Trace_Solve.tla",
                 text="Every fault position x origin (loss value, gradient of a network leaf, gradient of an equation parameter, optimizer update) x validation kind is enumerated by TLC; a stratified selection of the "
-                     "emitted scenarios is realised with real injectors (NaN residual, custom_vjp poisoning one leaf, NaN optimizer update) and the returned parameters, histories and untouched entries are decoded exactly.",
+                     "emitted scenarios is realised with real injectors (NaN residual, custom_vjp poisoning one leaf or one entry of a two-entry leaf, NaN optimizer update of a leaf or of one entry) and the returned parameters, histories and untouched entries are decoded exactly.",
                 note="tagged arithmetic under x64; per-leaf NaN pattern of each origin is part of the specification", ref="3.4 C18"),
     "C19": dict(cat="model_checking", tech="TLC model checking of Solve.tla/SolveOps (ValidationLoss state machine) + replay of TLC-emitted validation scripts into jinns.solve, validated by Trace_Solve.tla",
                 text="All validation outcome scripts (user module: improve/stop per call; built-in ValidationLoss: loss values, patience 0..2, early stopping on/off), periods and iteration counts are model-checked; "
-                     "scenarios are replayed with a scripted AbstractValidationModule or the real ValidationLoss with its own (mini-batched) generators; criterion history, stop iteration and best parameters decode exactly. "
+                     "scenarios are replayed with a scripted AbstractValidationModule or the real ValidationLoss with its own (mini-batched) collocation, parameter and observation generators; criterion history, stop iteration and best parameters decode exactly. "
                      "Extra leg: Validation.tla (ValidationLoss state machine) model-checked and every value script replayed by calling the real module directly (Trace_Validation.tla).",
                 note="tagged arithmetic under x64; ValidationLoss criterion = rank^2*4^12 + batch tags so that stale validation generators are visible", ref="3.4 C19"),
     "C01": dict(cat="model_checking", tech="TLC enumeration of the operator configuration space (MC_Operators.tla) + exact conformance of jinns' operators against Operators.tla (Trace_Func.tla)",
                 text="TLC enumerates dim 1..4 x time? x operator x every monomial of total degree <= 3 (the determining set) per output component; the real reverse-mode operators are evaluated on "
-                     "polynomial PINNs under x64 and must equal the exact polynomial calculus of the specification (spatial derivatives only), plus seeded random polynomial fields.",
+                     "polynomial PINNs under x64 and must equal the exact polynomial calculus of the specification (spatial derivatives only), plus seeded random polynomial fields; the forward-mode "
+                     "(separable network) implementations of the same operators are checked on polynomial SPINNs (MC_FwdRev.tla, operators only), including batches smaller than the dimension.",
                 note="polynomial fields only; JAX AD on transcendental activations is trusted", ref="2.3 3.6 C01"),
     "C03": dict(cat="model_checking", tech="TLC enumeration of loss structures (MC_Loss.tla) + exact conformance of loss.evaluate against LossSemantics.tla (Trace_Func.tla)",
                 text="Every structure (loss kind x residual components x weight form x batch size x subset of other terms x twins) is instantiated with polynomial networks/residuals and integer batches; "
-                     "total, dynamic term and exact zeros of unconfigured terms must equal the oracle; permutation/halves/linearity are lemmas checked on the twin records.",
+                     "total, dynamic term and exact zeros of unconfigured terms must equal the oracle; permutation/halves/linearity are lemmas checked on the twin records; structures with an observation batch "
+                     "carrying observed parameters and with heterogeneous parameters (from the C12 family) are included: the dynamic term must not see the former and must apply the latter to the caller's values.",
                 note="polynomial networks and residual maps (exact under x64)", ref="3.6 C03"),
     "C04": dict(cat="model_checking", tech="TLC enumeration of all per-facet condition assignments (MC_Loss.tla) + exact conformance of the boundary term against LossSemantics!Bnd (Trace_Func.tla)",
                 text="All 3^facets assignments x dims x stationary/non-stationary x global/dict x zero/non-zero f x scalar/array return x component selection x border and time batch sizes; "
@@ -69,7 +75,7 @@ CHECKS = {
                      "in which sample i sees row i of the batched keys and the caller's value of the others, and heterogeneous parameters are replaced inside the equation only.",
                 note="polynomial networks/residuals/heterogeneity maps; exact under x64", ref="3.6 C12"),
     "C13": dict(cat="model_checking", tech="TLC enumeration of system structures (MC_Loss.tla) + exact conformance of SystemLossODE/SystemLossPDE against LossSemantics!SysTerms (Trace_Func.tla)",
-                text="1..3 equations x 1..3 unknowns x key naming x ODE/stationary/non-stationary x scalar/dict weights x per-unknown initial/boundary/observation specifications x parameter batch; "
+                text="1..3 equations x 1..3 unknowns x key naming x ODE/stationary/non-stationary x scalar/dict/missing weights x per-unknown initial/boundary/observation specifications x parameter batch x unknowns as separate networks or as output slices of one shared network; "
                      "equations asymmetric in t and x; the 1x1 system = plain loss is a lemma of the oracle checked on the records.",
                 note="polynomial one-output networks and equations returning shape (1,) residuals; exact under x64", ref="3.6 C13"),
     "C20": dict(cat="model_checking", tech="TLC model checking of Purity.tla (all call orders) + replay of TLC-emitted call sequences on real objects, validated by Trace_Purity.tla",
@@ -78,7 +84,8 @@ CHECKS = {
                 note="bitwise cross-mode comparison only on exact-arithmetic problems (x64); generator-only sequences run in the default 32-bit mode; fingerprints hash structure, array bytes and user dictionaries", ref="3.5 C20"),
     "C02": dict(cat="model_checking", tech="TLC enumeration of equation x parameter-role x key-layout structures (MC_Equations.tla) + exact conformance of DynamicLoss.evaluate against Equations.tla (Trace_Func.tla)",
                 text="For each built-in equation, every parameter in turn (and all together), Tmax 1/2/4 and every network/parameter key layout is instantiated with integer polynomial candidates; the residual "
-                     "returned by the real DynamicLoss.evaluate must equal the documented differential expression evaluated by the specification (exact rationals).",
+                     "returned by the real DynamicLoss.evaluate must equal the documented differential expression evaluated by the specification (exact rationals); the separable-network branches of the "
+                     "built-in equations are checked on polynomial SPINNs (MC_FwdRev.tla, equations only).",
                 note="polynomial candidates (GLV: c(1+t)^m at dyadic points); GLV oracle = log form (docstring signs are a documentation remark)", ref="3.6 C02"),
     "C10": dict(cat="model_checking", tech="TLC enumeration of wrapper structures (MC_Net.tla) + exact conformance of create_PINN/create_SPINN/create_HYPERPINN networks against Net.tla (Trace_Func.tla)",
                 text="Wrapper x equation type x outputs x non-commuting input/output transforms x shared-output slices x full/bare parameters x scalar/length-one time x depth x activation; every SPINN grid slot "
